@@ -125,7 +125,9 @@ theorem convCol_vlen {nm : Name} {cs : List Cell} {c : Col} (h : convCol nm cs =
   simp only at h
   repeat' split at h
   all_goals first
-    | cases h
+    | (cases h; done)
+    | (cases h; exact Or.inr rfl)
+    | (cases h; exact Or.inl rfl)
     | (cases h; by_cases hn : hasNil cs = true <;> simp [hn])
 
 theorem convCols_vlen : ∀ {cols : List (Name × List Cell)} {out : List Col}, convCols cols = some out →
@@ -179,7 +181,7 @@ theorem convert_even {cols : List (Name × List Cell)} {times : List Int} {nrec 
       | none =>
         have : (if cs.any (fun c => c.name == timeName) = true then fitLen 0 times else []) = [] := by
           split <;> rfl
-        simp [this]
+        rw [this]; rfl
       | some c0 =>
         have hc0 : c0 ∈ cs := List.mem_of_find?_eq_some hfind
         by_cases ht : cs.any (fun c => c.name == timeName) = true
